@@ -1,6 +1,10 @@
 SOURCE_COMMITS = []
 NOTES = ('Exit codes of every check: 0 held (KNOWN-FINDING lines allowed), 1 VIOLATION, 2 UNDECIDED (an obligation was not '
-         'decided or a function left the executable subset; never reported as a violation), 3 checker error.')
+         'decided or a function left the executable subset; never reported as a violation), 3 checker error. '
+         'No hook or instrumentation exists in /repo (sidecar contracts under /verif/contracts); the commits in /repo are the '
+         'fix: commits listed in known_findings.json. The linking lemmas are mechanised in lemmas/Lemmas.lean '
+         '(python3-vt tools/check_lemmas.py; re-checked by every thorough run). 96 seeded property-breaking changes from '
+         'independent sub-agents are kept under seeded/ (tools/seed_regress.sh re-runs them; seeded/REGRESSION.txt).')
 NOT_APPLICABLE = {}
 CHECKS = {
     'C20': dict(
@@ -11,7 +15,7 @@ CHECKS = {
              'simulation lemma M1. A breadth-first comparison with the list model is the bounded cross-check.',
         design_ref='5.2, 6 (C20), Appendix A.1',
         note='Trusted: the VC generator and its Python semantics, z3/cvc5, the representation map Buffer -> <Q,i,m>, '
-             'lemma M1 (induction on history length, not mechanised). Assumes default join/init/empty, a finite underlying '
+             'lemma M1 (induction on history length; mechanised in lemmas/Lemmas.lean M1_simulation). Assumes default join/init/empty, a finite underlying '
              'iterator that raises only StopIteration, pure callbacks.',
         technique='contract-based deductive verification (VCs from the real AST, z3+cvc5) + bounded BFS stand-in'),
     'C19': dict(
@@ -22,7 +26,8 @@ CHECKS = {
              'Ignored/Invalid only. Exhaustive short strings and all single code points are the bounded cross-check.',
         design_ref='5.3, 6 (C19)',
         note='Trusted: VC generator, z3/cvc5, Buffer representation map, definitional instances of the jointext and counting '
-             'folds, lemma M4 (slices with ignorable gaps concatenate to the input minus those characters; not mechanised).',
+             'folds, lemma M4 (slices with ignorable gaps concatenate to a source without such characters; mechanised in '
+             'lemmas/Lemmas.lean M4_partition).',
         technique='contract-based deductive verification (VCs from the real AST, z3+cvc5) + bounded exhaustive stand-in'),
 }
 SOURCE_COMMITS = []
